@@ -170,6 +170,17 @@ VALUES = [
 ]
 
 
+def _double(v):
+    return v * 2
+
+
+_INT_DOUBLED = C.ScalarConverter(int, int, 'a doubled int', 'doubled ints', _double)
+
+
+def _h5(ty, args, *, handlers):          # answers for int with a converter that serialises 5 as 10
+    return _INT_DOUBLED if ty is int and not args else NotImplemented
+
+
 def harvest():
     """All converter objects reachable from the pool types, with a description of where they came from."""
     seen, out = set(), []
@@ -195,6 +206,14 @@ def harvest():
         except Exception as e:   # types the pinned tree cannot build are not part of the pool
             continue
         visit(conv, f'make_converter({_tyrepr(ty)})')
+    # the same containers of undeclared (Any) parts, built WITH a handler whose serialisation is observable (ints are doubled):
+    # handlers must reach the runtime-typed parts in the into_data direction too (C18)
+    for ty in (t.Dict[str, t.Any], t.Dict[t.Any, str], t.List[t.Any], t.Mapping[str, t.Any], {'a': t.Any}, t.Dict[t.Any, t.Any]):
+        try:
+            conv = make_converter(ty, ConverterHandlers((_h5,), ()))
+        except Exception:
+            continue
+        visit(conv, f'make_converter({_tyrepr(ty)}, handlers=<ints doubled>)')
     return out
 
 
@@ -1015,3 +1034,6 @@ def _data_path_instances(m):
 
 
 CUSTOM['pane.classes:data_paths.bounded'] = _data_path_instances
+
+TYPES.extend([t.Dict[t.Any, str], t.Dict[t.Any, t.Any]])
+VALUES.extend([{1: 'a', 2.5: 'b'}, {0: 'off', 'max': 'full'}, {1: 'a', fractions.Fraction(1, 2): 'b'}, {'n': 5, 'm': [1, 2]}, [5, 'x', [1]]])
